@@ -24,7 +24,7 @@ import traceback
 VERIF = os.path.dirname(os.path.dirname(os.path.abspath(__file__)))
 COQ = os.path.join(VERIF, "coq")
 BUILD = os.path.join(VERIF, "build")
-REPO = "/repo"
+REPO = os.environ.get("VERIF_REPO", "/repo")   # development only: a scratch copy for mutation trials
 PY = "/venv/bin/python"
 NCPU = os.cpu_count() or 8
 
@@ -355,7 +355,7 @@ class Ctx:
                          cwd=os.path.join(self.dir, "cases"), timeout=timeout + 30)
         return rc, out, parse_eval_outputs(out)
 
-    def coq_check_cases(self, imports, case_type, checker, cases, shard=400, label="cases", describe=None):
+    def coq_check_cases(self, imports, case_type, checker, cases, shard=400, label="cases", describe=None, diag=None):
         """cases: list of (coq_term_for_case, python_case_record). The Gallina `checker : case_type -> bool`
         is evaluated on every case by vm_compute; returns list of python_case_records on which it is false
         (model and implementation disagree). Also records mismatches."""
@@ -385,11 +385,17 @@ class Ctx:
                 self.broken.append("correspondence shard %s: %s" % (name, e))
                 continue
             self.traces += len(sh_cases)
+            dvals = {}
+            if idx and diag:
+                # what does the model say on the disagreeing cases?  (diagnostics only)
+                dbody = "".join("Eval vm_compute in (%s (%s)).\n" % (diag, sh_cases[i][0]) for i in idx[:5])
+                drc, dout, dv = self.coq_eval(name + "_diag", imports, dbody)
+                dvals = dict(zip(idx[:5], dv))
             for i in idx:
                 rec = sh_cases[i][1]
                 bad.append(rec)
                 self.mismatch("model and implementation disagree (%s, %s[%d])" % (label, name, i), rec,
-                              model=describe(sh_cases[i]) if describe else sh_cases[i][0][:2000])
+                              model=dvals.get(i, describe(sh_cases[i]) if describe else sh_cases[i][0][:2000]))
         return bad
 
 
